@@ -1,7 +1,7 @@
 (* C15/Run.v — two-phase line driver: the harness ran the case on the real code and printed what it observed;
    the model says whether the observation is a run of the model, the spec whether it satisfies the property.
      S seq <n> | S hdr <n>      <TAB> start=<probe>;s1,...,sn        n sequential builds after one probe build
-     S thr <t> <n> [msg]        <TAB> start=<probe>;l1|...|lt        t threads, n builds each
+     S thr <t> <n> [msg]        <TAB> start=<probe>;l1|...|lt        t threads, n builds each (lists delta-encoded)
      S burn <target>            <TAB> start=<probe>;count=<c>        builds until serial <target> is handed out
      S clone                    <TAB> a,b                            two messages from a builder and its clone *)
 From ZV Require Import Base.Bytes Base.Res C15.Model C15.Spec.
@@ -63,6 +63,13 @@ Definition model_threads (c0 total : N) (ls : list (list N)) : bool :=
   forallb (fun l => increasing_from c0 None l && forallb (fun v => negb (v =? 0) && (v <? M32) && (off32 c0 v <? nf)) l) ls
   && nodupb all && (N.of_nat (length all) =? total).
 
+(* thread lists come delta-encoded: first serial, then differences modulo 2^32 *)
+Fixpoint undelta (prev : N) (l : list N) : list N :=
+  match l with
+  | [] => []
+  | d :: r => let v := (prev + d) mod M32 in v :: undelta v r
+  end.
+
 Definition counter_after (probe : N) : N := (probe + 1) mod M32.
 
 (* number of builds, starting with the counter at c0, until serial [target] (1 <= target < 2^32) is handed out *)
@@ -76,6 +83,10 @@ Definition verdict (b : bool) (why : string) : bytes := if b then tokOK else B w
 Definition run_case (line : bytes) : outp :=
   match split_fast tab line with
   | [case; obs] =>
+      if lbeq obs (B "PANIC") then
+        (* a build that panics (NonZeroU32 unwrap) is not a run of the model within 2^32 fetches, and hands out no serial *)
+        {| o_model := B "panic-is-not-a-run-of-the-model"; o_spec := B "a-build-panicked"; o_class := dash |}
+      else
       match words case with
       | [s; mode; n] =>
           if negb (lbeq s (B "S")) then bad_case else
@@ -110,7 +121,8 @@ Definition run_case (line : bytes) : outp :=
           match N_of_dec t, N_of_dec n, parse_start obs with
           | Some tcount, Some nn, Some (p, rest) =>
               match parse_all parse_list (split_fast "|"%byte rest) with
-              | Some ls =>
+              | Some dls =>
+                  let ls := map (undelta 0) dls in
                   let all := concat ls in
                   {| o_model := verdict (model_threads (counter_after p) (tcount * nn) ls
                                          && (N.of_nat (length ls) =? tcount)) "not-a-run-of-the-model";
